@@ -41,6 +41,8 @@ pub mod hooks {
         pub rule_inputs: Vec<(Option<std::net::IpAddr>, Option<Vec<u8>>)>,
         /// every operation on the QUIC multiplexer's timer bookkeeping with the state it left
         pub quic_timer_ops: Vec<String>,
+        /// every operation on an HTTP/3 codec's stream table (prefixed by the codec's identity) with the table it left
+        pub h3_stream_ops: Vec<String>,
     }
 
     lazy_static::lazy_static! {
@@ -65,6 +67,13 @@ pub mod hooks {
         let mut st = STATE.lock().unwrap();
         if st.quic_timer_ops.len() < 200_000 {
             st.quic_timer_ops.push(op);
+        }
+    }
+
+    pub(crate) fn note_h3_stream_op(op: String) {
+        let mut st = STATE.lock().unwrap();
+        if st.h3_stream_ops.len() < 200_000 {
+            st.h3_stream_ops.push(op);
         }
     }
 
